@@ -180,3 +180,16 @@ Proof.
   destruct (char_token_value_platform_ext p cpp (92 :: cs) _ Hc Hb Hp Hcnt) as [E1 E2].
   repeat split; assumption.
 Qed.
+
+(* a hexadecimal escape with more than two digits is counted as two characters by Token::isCChar
+   (replaceEscapeSequences reads at most two hex digits after \x), so the plain-char adjustment is skipped:
+   '\x0ff' on a platform whose plain char is unsigned is reported as -1, its value is 255 *)
+Theorem long_hex_escape_char_token_refuted :
+  exists p s z n, In p Gen_platforms /\ p_sign p = 117 /\
+                  char_literal_to_ll s = Some z /\ narrow_nbytes s = Some 1 /\ token_char_count s = Some n /\
+                  (forall cpp, char_token_value p cpp n z <> char_value_on p 255).
+Proof.
+  exists plat_arm32_wchar_t4, [39; 92; 120; 48; 102; 102; 39], (-1)%Z, 2.
+  split; [vm_compute; tauto|]. split; [reflexivity|]. split; [vm_compute; reflexivity|].
+  split; [vm_compute; reflexivity|]. split; [vm_compute; reflexivity|]. intros cpp. vm_compute. discriminate.
+Qed.
